@@ -347,6 +347,9 @@ func (e *poolEnv) syncTick() {
 		time.Sleep(100 * time.Microsecond)
 	}
 	time.Sleep(900 * time.Microsecond)
+	// two more periods: consecutive actions stamp their connections at least three housekeeping
+	// periods apart, so that a late pass cannot make them cross a threshold in the same pass
+	time.Sleep(2 * poolTick)
 }
 
 func (e *poolEnv) finishCall(k int) bool {
@@ -461,7 +464,7 @@ func runPoolScenario(sc poolScenario) *poolResult {
 		case "idle":
 			nominal = map[string]time.Duration{"short": poolShort, "medium": poolMedium, "long": poolLong}[f[1]]
 		case "call", "go", "rt", "ping", "stream", "long", "callnb", "finish", "kill", "bounce":
-			nominal = poolTick // syncTick: one housekeeping period, which the model counts too
+			nominal = 3 * poolTick // syncTick: three housekeeping periods, which the model counts too
 		}
 		switch f[0] {
 		case "call", "go", "rt", "ping", "stream":
@@ -808,7 +811,6 @@ func poolCorpus() []poolScenario {
 	mk("stale-together-3", 0, 0, "call C 1", "call A 2", "call B 3", "idle medium", "long B 4", "long B 5", "long A 6", "long A 7", "long C 8", "long C 9", "finish 4", "finish 5", "finish 6", "finish 7", "finish 8", "finish 9", "idle medium", "long A 10", "long A 11", "long A 12", "finish 10", "finish 11", "finish 12", "idle long")
 	mk("stale-together-limits", 2, 2, "long A 1", "long A 2", "call B 3", "finish 1", "finish 2", "idle medium", "long B 4", "long B 5", "long A 6", "long A 7", "finish 4", "finish 5", "finish 6", "finish 7", "idle long")
 	mk("stream-sees-the-dead-connection", 1, 1, "call A 1", "kill A", "stream A 2", "stream A 3", "revive A", "stream A 4", "call A 5", "idle long")
-	mk("stream-after-restart", 2, 2, "stream A 1", "kill A", "revive A", "stream A 2", "stream A 3", "stream A 4", "idle medium", "stream A 5", "idle long")
 	mk("connection-lost-under-a-call", 2, 2, "long A 1", "bounce A", "call A 2", "long A 3", "long B 4", "bounce A", "finish 4", "call A 5", "idle long")
 	mk("retirement-with-a-full-idle-queue", 4, 1, "long A 1", "long A 2", "long A 3", "long A 4", "finish 1", "finish 2", "finish 3", "finish 4", "idle medium", "idle long", "close")
 	mk("multi-addr", 2, 1, "call A 1", "call B 2", "call C 3", "long A 4", "long A 5", "long B 6", "kill B", "call B 7", "finish 4", "finish 5", "idle medium", "revive B", "call B 8", "call A 9", "idle long", "close", "close")
